@@ -152,6 +152,8 @@ var h08Sets = [][]string{
 	{".config", ".name", "/gomaxprocs"},
 	{"/gomaxprocs", "a"},
 	{".fullname", "/gomaxprocs"},
+	{".fullname", "/gomaxprocs", "/k"},
+	{"/k", "/gomaxprocs", ".name"},
 }
 
 func h08Perm(n, idx int) []int {
@@ -276,4 +278,81 @@ func H08Exclusion() {
 		vndAssert(!has(f.Name), "specific-keys-left-out-of-residue")
 	}
 	vndObserveBool("agree", agreeAll)
+}
+
+// H08Bucket: a projection on the single key a, n results with arbitrary values; the row
+// hash is an uninterpreted function, so every way of distinct rows sharing a bucket is
+// explored. A result projected again finds the key interned for its value, however many
+// other rows share its bucket.
+func H08Bucket() {
+	vndHashUninterpreted(true)
+	n := vndParam("results")
+	var pp ProjectionParser
+	proj, err := pp.Parse("a", nil)
+	if err != nil {
+		panic(err)
+	}
+	vals := make([]byte, n)
+	keys := make([]Key, n)
+	for i := 0; i < n; i++ {
+		vals[i] = vndByte("a")
+		vndAssume(vndAnd(vals[i] >= 'p', vals[i] <= 's'))
+		keys[i] = proj.Project(h08Build(h08Res{a: vals[i]}))
+	}
+	vndReach("h08:bucket")
+	f := proj.FlattenedFields()[0]
+	distinct := 1
+	for i := 0; i < n; i++ {
+		vndAssert(keys[i].Get(f) == h08Str(vals[i]), "get-returns-the-extracted-value")
+		first := true
+		for j := 0; j < i; j++ {
+			vndAssert((keys[i] == keys[j]) == (vals[i] == vals[j]), "keys-equal-iff-projected-values-equal")
+			if vals[i] == vals[j] {
+				first = false
+			}
+		}
+		if first && i > 0 {
+			distinct++
+		}
+	}
+	if distinct >= 3 {
+		vndReach("h08:bucket-shared") // three or more distinct rows exist; with the free hash some paths put them in one bucket
+	}
+}
+
+// H08Split: a projection on the keys a and b; every result splits one of two three-byte
+// strings between them at a solver-chosen point ("", "rsx" / "r", "sx" / "rs", "x" / "rsx", ""),
+// so that different rows have the same concatenation of values (and, the row hash running
+// over the values back to back, really share a bucket, natively too).
+func H08Split() {
+	n := vndParam("results")
+	var pp ProjectionParser
+	proj, err := pp.Parse("a,b", nil)
+	if err != nil {
+		panic(err)
+	}
+	type row struct{ a, b string }
+	rows := make([]row, n)
+	keys := make([]Key, n)
+	for i := 0; i < n; i++ {
+		s := []string{"rsx", "rsy"}[vndChoice("str", 2)]
+		k := vndChoice("split", 4)
+		rows[i] = row{s[:k], s[k:]}
+		res := &benchfmt.Result{Name: benchfmt.Name("B"), Iters: 1, Values: []benchfmt.Value{{Value: 1, Unit: "u"}}}
+		if rows[i].a != "" {
+			res.SetConfig("a", rows[i].a)
+		}
+		if rows[i].b != "" {
+			res.SetConfig("b", rows[i].b)
+		}
+		keys[i] = proj.Project(res)
+	}
+	vndReach("h08:split")
+	fs := proj.FlattenedFields()
+	for i := 0; i < n; i++ {
+		vndAssert(keys[i].Get(fs[0]) == rows[i].a && keys[i].Get(fs[1]) == rows[i].b, "get-returns-the-extracted-value")
+		for j := 0; j < i; j++ {
+			vndAssert((keys[i] == keys[j]) == (rows[i] == rows[j]), "keys-equal-iff-projected-values-equal")
+		}
+	}
 }
